@@ -10,7 +10,8 @@ FUNCS = ["emmylua_parser::LineIndex::parse", "LineIndex::get_line_col", "LineInd
 def hdefs(tier):
     hs = []
     if tier == "quick":
-        shp16 = [s for s in S.shapes(3, widths=(1, 2, 4)) if any(w > 1 for w in s)]
+        shp16 = [s for s in S.shapes(2, widths=(1, 2, 4)) if any(w > 1 for w in s)]
+        shp16 += [(1, 4, 1), (4, 1, 4), (1, 1, 4), (4, 1, 1), (2, 4, 1), (4, 2, 2)]
         shpeol = S.shapes(3, widths=(1, 2))
     else:
         shp16 = [s for s in S.shapes(4, widths=(1, 2, 3, 4)) if any(w > 1 for w in s)]
@@ -26,14 +27,17 @@ def hdefs(tier):
                        "get_line_col(o).character == UTF-16 length of the line prefix, and get_offset inverts it, for every char boundary o",
                        b, ctx, FUNCS))
     for s in shpeol:
+        if tier == "quick" and not any(w == 1 for w in s):
+            continue
         L, K, n, arr = S.byte_len(s), len(s), S.name(s), S.rust_array(s)
         uw = L + 3
         ctx = {"ascii_chars": sum(1 for w in s if w == 1)}
         b = {"shape": list(s), "bytes": L, "unwind": uw,
-             "symbolic": "class of every 1-byte char (LF | CR | other), char index"}
+             "symbolic": "class of every 1-byte char (LF | CR | other), char index, line, character"}
         hs.append(HDef("c23_eol_" + n, "line_terminators",
-                       "#[kani::proof] #[kani::unwind(%d)] pub fn c23_eol_%s() { line_terminators::<%d, %d>(%s) }" % (uw, n, L, K, arr),
-                       "line_count and get_line agree with a reference splitter for LF, CRLF and lone CR; (line,0) is the line start",
+                       "#[kani::proof] #[kani::unwind(%d)] pub fn c23_eol_%s() { line_terminators::<%d, %d>(%s); eol_clamp::<%d, %d>(%s) }" % (uw, n, L, K, arr, L, K, arr),
+                       "line_count and get_line agree with a reference splitter for LF, CRLF and lone CR; (line,0) is the line start; "
+                       "get_offset(line, character) stays within the line's content and clamps to its end",
                        b, ctx, FUNCS))
     return hs
 
